@@ -265,6 +265,10 @@ impl<H: Hasher> BatchMerkleProof<H> {
             return Err(MerkleTreeError::InvalidProof);
         }
 
+        // validate the indexes (and with them the depth) before doing arithmetic on them
+        let original_indexes = indexes;
+        let index_map = super::map_indexes(indexes, self.depth as usize)?;
+
         let mut partial_tree_map = BTreeMap::new();
 
         for (&i, leaf) in indexes.iter().zip(leaves.iter()) {
@@ -275,8 +279,6 @@ impl<H: Hasher> BatchMerkleProof<H> {
         let mut v = BTreeMap::new();
 
         // replace odd indexes, offset, and sort in ascending order
-        let original_indexes = indexes;
-        let index_map = super::map_indexes(indexes, self.depth as usize)?;
         let indexes = super::normalize_indexes(indexes);
         if indexes.len() != self.nodes.len() {
             return Err(MerkleTreeError::InvalidProof);
